@@ -135,7 +135,7 @@ def main(tier, replay):
         "real-vs-complex agreement, impulse, Parseval, filter == definition sum_j k_j in_{i-j}, DFT route == direct route when no wrap-around is possible, "
         "separable == successive 1-D filters in all 6 axis orders, Gaussian/Metz kernel sums and mean preservation on locally constant data.")
     chk.assumptions += ["32-bit overflow not modelled", "float rounding of the transforms is bounded, not modelled (binary64 model)",
-                        "product of DFTs = circular convolution (convolution theorem) is checked by correspondence, not proved",
+                        "real-data packing trick and n-D recursion of the transforms are checked by correspondence, not proved (the 1-D convolution theorem for the DFT by its definition is proved)",
                         "Metz kernels: model at binary64, compared within 5e-4 of the kernel peak"]
     if audit:
         vlib.proof_coverage(chk, audit, "cd lean && lake build StirVerif stirdriver && lake env lean ../build/out/Audit_C19.lean")
